@@ -33,7 +33,9 @@ RULE = (
     "configuration Cid.read accepts gets (a) systematic tables whose cells are the empty string, every atom and every "
     "ordered pair of atoms of its alphabet (configured delimiter, quote and escape character, blank, CR, LF, 'x', "
     "'\\u00e9') and every special atom between letters, packed 5 rows x 4..1 columns, plus edge shapes (no rows, rows "
-    "of empty cells), (b) seed-derived random tables of 0-5 rows x 1-4 columns with cells of 0-4 atoms, and (c) "
+    "of empty cells) and tables whose first row starts with a cell that means something to other consumers of "
+    "delimited files ('sep=' as Excel's separator hint, 'ID', a byte order mark, comment / formula / null spellings), "
+    "(b) seed-derived random tables of 0-5 rows x 1-4 columns with cells of 0-4 atoms, and (c) "
     "Hypothesis tables over the same alphabet with the configuration drawn at random (shrunk on failure). Oracle: "
     "read(write(table)) == table through rowio and through cutplace.Writer/cutplace.rows under an all-Text CID. "
     "A case is non-trivial when some cell contains the configured delimiter, quote or escape character or a line "
@@ -319,6 +321,26 @@ def check_case(sub, case, shrink=False):
 
 
 # -- (a) systematic and (b) seed-derived tables per configuration --------------------------------
+# first cells that mean something to some consumer of delimited files (Excel's separator hint, the SYLK magic, a byte
+# order mark, comment and formula prefixes, null spellings, numbers that lose their form when interpreted): for the
+# round trip they are text like any other
+MAGIC_CELLS = ["sep=", "sep=;", "sep=,", "ID", "\ufeffid", "#", "# comment", "//", "%", "<?xml", "PK", "=1+1", "@a", "+1",
+               "-1", "NULL", "null", "None", "\\N", "NA", "N/A", "1e5", "0x10", "true", "00123", "1,5", "''", '""']
+
+
+def magic_tables(config, number):
+    """Tables whose first row starts with one of MAGIC_CELLS: 'sep=' always, six others in rotation."""
+    picked = ["sep="] + [MAGIC_CELLS[(number * 6 + k) % len(MAGIC_CELLS)] for k in range(6)]
+    tables = []
+    for position, magic in enumerate(picked):
+        columns = 1 + (number + position) % 4 if magic != "sep=" else 2
+        tables.append([[magic] + [""] * (columns - 1), ["x"] * columns])
+        if position % 2:
+            tables.append([[magic] * columns, [magic] + ["y"] * (columns - 1)])
+    tables.append([["sep=" + config["delimiter"]] + [""], ["x", "y"]])
+    return tables
+
+
 def systematic_tables(config):
     atoms = atoms_of(config)
     specials = [a for a in atoms if a not in ("x", "\xe9")]
@@ -389,7 +411,7 @@ def _enumeration_shard(args):
         sub.cls("enumerated-config:accepted")
         local = Sub("enumeration")
         local.fails = sub.fails  # so that only the first failure of a signature is minimised
-        for table in systematic_tables(config):
+        for table in systematic_tables(config) + magic_tables(config, number):
             check_case(local, {"config": config, "table": table, "columns": 1}, shrink=True)
         for table_number in range(derived_per_config):
             table, columns = derived_table(config, seed, number, table_number)
@@ -421,6 +443,10 @@ def table_cases(draw):
     columns = draw(st.integers(1, 4))
     cell = st.lists(st.sampled_from(atoms), min_size=0, max_size=5).map("".join)
     table = draw(st.lists(st.lists(cell, min_size=columns, max_size=columns), min_size=0, max_size=5))
+    if table and draw(st.integers(0, 5)) == 0:
+        table[0][0] = draw(st.sampled_from(MAGIC_CELLS))
+        if draw(st.booleans()):
+            table[0][1:] = [""] * (columns - 1)
     return {"config": config, "table": table, "columns": columns}
 
 
